@@ -54,6 +54,8 @@ def numpy_specs(tier):
         if tier == 'quick' and (lay == 'strided' and fl != 'ramp' or lay == 'F' and len(sh) < 2):
             continue
         out.append({'dtype': dt, 'shape': list(sh), 'fill': fl, 'layout': lay})
+    out.append({'dtype': 'float64', 'shape': [2200000], 'fill': 'ramp', 'layout': 'C'})  # > 16 MiB on disk
+    out.append({'dtype': 'uint8', 'shape': [9000000], 'fill': 'ramp', 'layout': 'C'})     # > 8 MiB
     return out
 
 
@@ -346,6 +348,16 @@ def check_value(cname, idx, v, base):
         out.append(('loaded value differs from what the computing chain returned', r))
     if tree_bytes(base) != before:
         out.append(('loading changed the stored files', ''))
+    # the loaded value is the caller's own copy: changing it in place must not change what is stored
+    if cname == 'Np' and isinstance(loaded, np.ndarray) and loaded.size and loaded.dtype.kind in 'iufb':
+        try:
+            loaded[...] = loaded.dtype.type(1) if loaded.dtype.kind != 'b' else ~loaded
+        except (ValueError, TypeError):
+            pass  # a read-only result cannot be modified: fine
+        again = materialise(cname, chain()[name].value)
+        r2 = same(exp, again)
+        if r2:
+            out.append(('modifying a loaded value in place changed the stored result', r2))
     return out
 
 
